@@ -43,6 +43,9 @@ def gen_form_case(rng, tier, forms=("arc", "path", "seq"), heur_p=0.35, nmax=Non
         case["L"] = rng.choice([3, 3, 4, 4, 5])
     if rng.random() < heur_p:
         case["heur"] = fs(Fraction(rng.choice([0, 1, 10, 40, 1000, 3]), rng.choice([1, 1, 4])))
+        if rng.random() < 0.4:
+            # queries issued BEFORE the heuristic (fills the object's caches; they must not matter afterwards)
+            case["pre"] = rng.sample(["n", "obj", "con", "qubo_o", "qubo_f"], rng.randint(1, 3))
     return case
 
 
@@ -70,9 +73,14 @@ def shrink_form_case(case):
         yield dict(case, V=case["V"] - 1)
     if case.get("L", 0) > 3:
         yield dict(case, L=case["L"] - 1)
+    if "pre" in case:
+        c2 = dict(case)
+        del c2["pre"]
+        yield c2
     if "heur" in case:
         c2 = dict(case)
         del c2["heur"]
+        c2.pop("pre", None)
         yield c2
     # simplify numbers
     for i, a in enumerate(spec["arcs"]):
@@ -103,6 +111,18 @@ def build_form(case, with_heur=True):
         o.set_max_sequence_length(case["L"])
     outcome = None
     if with_heur and case.get("heur") is not None:
+        for q in case.get("pre", []):
+            try:
+                if q == "n":
+                    o.get_num_variables()
+                elif q == "obj":
+                    o.get_objective_data()
+                elif q == "con":
+                    o.get_constraint_data()
+                else:
+                    o.get_qubo(feasibility=(q == "qubo_f"))
+            except Exception:  # noqa
+                pass
         np.random.seed(case.get("seed", 0))
         try:
             o.make_feasible(VU.val(case["heur"]))
